@@ -331,6 +331,13 @@ func c06GenEntries(w *strings.Builder, r *rng, nc, nd, nf int, tag int, longName
 		}
 		fmt.Fprintf(w, " d %s %d %d", hexTok([]byte(p)), wild, r.pick(0, 1, 7))
 	}
+	// always: an exact pattern AND the wildcard over the same base (mixed case too), and a base / a forward key
+	// that other origins use as well - structurally related routes must all survive announce, replay and withdraw
+	for _, base := range []string{fmt.Sprintf("pair%d.example.com", tag), fmt.Sprintf("MiXed%d.Example.COM", tag), "shared.example.org"} {
+		fmt.Fprintf(w, " d %s 0 %d", hexTok([]byte(base)), r.pick(0, 1, 7))
+		fmt.Fprintf(w, " d %s 1 %d", hexTok([]byte("*."+base)), r.pick(0, 1, 7))
+	}
+	fmt.Fprintf(w, " f %s %s %d", hexTok([]byte("svc-shared")), hexTok([]byte(fmt.Sprintf("10.%d.9.9:80", tag))), r.pick(0, 1, 9))
 	for i := 0; i < nf; i++ {
 		key := fmt.Sprintf("svc-%d-%d", tag, i)
 		target := fmt.Sprintf("10.%d.0.%d:%d", tag, i%250, 1000+i)
@@ -425,7 +432,7 @@ func c06Gen(w *bufio.Writer, seed int64, tier string) {
 			adv.Sequence = c05GenU64(r)
 			hops := r.pick(0, 1, 2, 5, 15)
 			if r.chance(5) {
-				hops = r.pick(100, 253, 254)
+				hops = r.pick(100, 252, 253) // path and seen-by stay below the 255-entry wire limit after forwarding (beyond it the forwarder refuses, see dae7f66)
 			}
 			path, seen := []identity.AgentID{origin}, []identity.AgentID{origin}
 			for h := 0; h < hops; h++ {
